@@ -665,3 +665,16 @@ _add("C17", _LATCH + "One statement was false for the code and was corrected: re
      "Latch.eof_with_the_last_bytes_moves_on).")
 _add("C07", _LATCH + "The table-level refinement lemma needs 'the last record has no raw data' (true of every table open_reader builds: "
      "append_record_zero_last); xflate_reader_refines_readseeker is unchanged.")
+
+_add("C02", "ADDED: brotli.Reader ITSELF at implementation level (Brotli/Impl.v + 17 proof files, by a proof sub-agent: the full Reader "
+     "state, Read, the four steps, ReadPrefixCode with the sorting networks and both table modes, context maps with the persistent "
+     "move-to-front state, block switching, the label machine of readCommands with its three suspension states, distance tables, "
+     "the static-dictionary copy with all 121 transforms as written, Reset/Close), compared with the real Reader PER Read CALL on "
+     "both source paths incl. a dump of the internal state (WBRIMPL). Proved, layer by layer up to ONE STEP of the whole decoder "
+     "(brotli_reader_step_keeps_the_rfc_decoders_future): from a state related to a configuration of the RFC 7932 model every step "
+     "keeps the RFC decoder's future - io.EOF exactly when it accepts, failure exactly when it fails, output only grows, never a "
+     "run-time panic; likewise one call of readCommands resumed in any suspension state, readPrefixCodes as a whole and "
+     "ReadPrefixCode from any recycled storage. OPEN, not claimed: the assembly over whole histories of Read calls "
+     "(brotli_impl_refines_rfc7932_statement stays a Definition) and the sufficiency of the model's loop budgets. Observation "
+     "(no defect): on inputs that are both truncated and invalid the final error CLASS differs from the RFC model in both "
+     "directions (UnexpectedEOF against Corrupted); acceptance and output never differ.")
